@@ -8,7 +8,7 @@ from d42.substitution.errors import SubstitutionError
 
 from . import e2
 from . import model as M
-from .codec import register
+from .codec import TAG_RED, register
 from .values import UNRELATED, cp, dedup, inject, perturb, value_universe
 
 E = Ellipsis
@@ -144,6 +144,10 @@ def subst_values(t, tier, placeholders=True):
     for w in ws[:4]:
         out += _float_leaf_variants(w, (1 + 5e-10, 1 - 5e-10))     # inside the tolerance band
     out += [OPAQUE, (1, 2)]
+    # a str-mixin enum member: a str (== "red") whose str() is something else
+    out.append(TAG_RED)
+    for w in ws[:1]:
+        out += inject(w, TAG_RED, max_out=8)
     # not-a-number is a float like any other as far as substitution is concerned: alone, and in
     # place of every node of the first witness
     out.append(NAN)
